@@ -224,16 +224,16 @@ func main() {
 }
 
 type pkgRewriter struct {
-	only  map[string]bool
-	light bool // only time.Now and math/rand.Float64 (module with -lang < go1.18: no generic shims)
-	fset  *token.FileSet
-	pkg   *listPkg
-	imp   types.Importer
-	info  *types.Info
-	xtest bool
-	st    stats
+	only   map[string]bool
+	light  bool // only time.Now and math/rand.Float64 (module with -lang < go1.18: no generic shims)
+	fset   *token.FileSet
+	pkg    *listPkg
+	imp    types.Importer
+	info   *types.Info
+	xtest  bool
+	st     stats
 	usedVS bool
-	n     int
+	n      int
 }
 
 func (r *pkgRewriter) run(files []string, overlay map[string]string, perFile map[string]stats, h io.Writer) error {
